@@ -112,6 +112,8 @@ func main() {
 		spawn      = flag.String("spawn", "", "per-go-statement thread slots: substr=n,substr=n (default 1)")
 		nopor      = flag.Bool("nopor", false, "disable partial-order reduction and frozen-cell folding (cross-check)")
 		noloops    = flag.Bool("noloopcheck", false, "skip unwinding-assertion queries")
+		split      = flag.Bool("split", false, "decide large queries by case split over the harness's vNondetRange choices (substitute, re-simplify, solve the leaves)")
+		seqOnly    = flag.Bool("seq", false, "sequential prefix: goroutines spawned by the harness are not encoded (they have not run when the harness ends); only inline assertions of the harness can be claimed")
 	)
 	racyF := flag.String("racyfields", "", "Type.field,... : fields whose plain accesses get replay scheduling points")
 	instr := flag.String("instrument", "", "write instrumented sources for replay to this directory and exit")
@@ -140,6 +142,11 @@ func main() {
 		w := load(*repo, *pkgDir, *overlayDir, *entry)
 		w.R, w.U, w.K, w.poolBag = *R, *U, *K, *pool
 		w.raceMode = *race
+		w.seqOnly = *seqOnly
+		splitMode = *split
+		if *seqOnly {
+			res.Bounds["seq"] = 1
+		}
 		for _, kv := range strings.Split(*unwind, ",") {
 			if i := strings.LastIndex(kv, "="); i > 0 {
 				n, _ := strconv.Atoi(kv[i+1:])
@@ -186,6 +193,7 @@ func main() {
 			w2 := load(*repo, *pkgDir, *overlayDir, *entry)
 			w2.R, w2.U, w2.K, w2.poolBag, w2.raceMode = *R, *U, *K, *pool, *race
 			w2.unwindOverride = w.unwindOverride
+			w2.seqOnly = *seqOnly
 			w2.spawnOverride = w.spawnOverride
 			w2.orderFirst = w.orderFirst
 			w2.windows = w.windows
@@ -237,6 +245,7 @@ func resetGlobals() {
 	// keys and locations are process-global; objects are per world, so clear the location cache
 	locs = map[string]*Loc{}
 	errWraps = map[*Object][]Value{}
+	splitChoices = nil
 }
 
 var loadedProg *ssa.Program
